@@ -5,15 +5,45 @@ package keeper
 
 //@ wire (Keeper).storeKey = store tibc
 
-//@ spec routeAllowed(rules: opt, src: str, dst: str, port: str): bool
+//@ // C12: what a stored rule set means. A rule matches a triple field by field: its comma-separated fields are exactly
+//@ // three, and each is "*" or identical to the corresponding value. Nothing stored: nothing authorised.
+//@ spec fieldsMatch(F: obj, V: obj): bool = seqlen(F) == seqlen(V) && (forall i: i64 :: 0 <=s i && i <s seqlen(F) ==> seqstr(F, i) == "*" || seqstr(F, i) == seqstr(V, i))
+//@ spec ruleMatches(rule: str, s: str, d: str, p: str): bool = seqlen(split(rule, ",")) == 3 &&
+//@        (seqstr(split(rule, ","), 0) == "*" || seqstr(split(rule, ","), 0) == s) &&
+//@        (seqstr(split(rule, ","), 1) == "*" || seqstr(split(rule, ","), 1) == d) &&
+//@        (seqstr(split(rule, ","), 2) == "*" || seqstr(split(rule, ","), 2) == p)
+//@ spec rulesOf(o: opt): obj = jsondec(val(o))
+//@ spec routeAllowed(rules: opt, src: str, dst: str, port: str): bool =
+//@        present(rules) && (exists i: i64 :: 0 <=s i && i <s seqlen(rulesOf(rules)) && ruleMatches(seqstr(rulesOf(rules), i), src, dst, port))
 
-//@ extern (Keeper).Authenticate(ctx, sourceChain, destinationChain, port) (result)
+//@ func matchRule(rule, values) (result)
+//@   props C12
+//@   let F = split(rule, ",")
+//@   ensures iff: result <==> fieldsMatch(F, values)
+//@   loop #0 invariant range: -1 <=s rangeindex && rangeindex <s seqlen(F) && seqlen(F) == seqlen(values)
+//@   loop #0 invariant sofar: forall j: i64 :: 0 <=s j && j <=s rangeindex ==> seqstr(F, j) == "*" || seqstr(F, j) == seqstr(values, j)
+//@   loop #0 decreases seqlen(F) - 1 - rangeindex
+
+//@ func (Keeper).Authenticate(ctx, sourceChain, destinationChain, port) (result)
+//@   props C12 C11
+//@   let R = rulesOf(tibc[routingRules()])
 //@   ensures def: result <==> routeAllowed(tibc[routingRules()], sourceChain, destinationChain, port)
+//@   ensures none: !present(tibc[routingRules()]) ==> !result
+//@   loop #0 invariant range: -1 <=s rangeindex && rangeindex <s seqlen(R)
+//@   loop #0 invariant none:  forall j: i64 :: 0 <=s j && j <=s rangeindex ==> !ruleMatches(seqstr(R, j), sourceChain, destinationChain, port)
+//@   loop #0 decreases seqlen(R) - 1 - rangeindex
 //@
-//@ // SetRoutingRules: syntax check per rule, then the JSON encoding of the rule list is stored under the routing key (C12)
+//@ // SetRoutingRules: every rule must be in L(RulePattern) (C12.syntax says what that language is); on success the JSON
+//@ // encoding of exactly this list is stored under the routing key and nothing else changes.
 //@ func (Keeper).SetRoutingRules(ctx, rules) (err)
 //@   props C12 C15
 //@   modifies tibc
+//@   ensures syntax: err == nil ==> (forall i: i64 :: 0 <=s i && i <s seqlen(rules) ==> rematch(types.RulePattern, seqstr(rules, i)))
+//@   ensures reject: (exists i: i64 :: 0 <=s i && i <s seqlen(rules) && !rematch(types.RulePattern, seqstr(rules, i))) ==> err != nil
+//@   ensures stored: err == nil ==> tibc[routingRules()] == some(jsonenc(rules))
 //@   ensures frame:  forall k: key :: k != routingRules() ==> tibc[k] == old(tibc)[k]
 //@   ensures atomic: err != nil ==> tibc == old(tibc)
 //@   loop #0 invariant nowrite: tibc == old(tibc)
+//@   loop #0 invariant range:   -1 <=s rangeindex && rangeindex <s seqlen(rules)
+//@   loop #0 invariant sofar:   forall j: i64 :: 0 <=s j && j <=s rangeindex ==> rematch(types.RulePattern, seqstr(rules, j))
+//@   loop #0 decreases seqlen(rules) - 1 - rangeindex
